@@ -431,7 +431,14 @@ def gen_items(r, enc, ctx, depth, counter):
                 bait = "nonchar"
             attrs.append([an, rand_value(r, enc, ctx, bait), bait])
         kids = [] if void or depth >= 2 else gen_items(r, enc, ctx, depth + 1, counter)
-        items.append({"name": name, "id": my_id, "attrs": attrs, "kids": kids})
+        item = {"name": name, "id": my_id, "attrs": attrs, "kids": kids}
+        if r.random() < 0.2:
+            # a multi-valued attribute: a list value, written as " ".join (items without white space, as a re-parse splits there)
+            cls = ["".join(ch for ch in rand_value(r, enc, ctx, None, 4) if not ch.isspace()) for _ in range(r.choice([1, 2, 3]))]
+            item["cls"] = [c for c in cls if c]
+        if r.random() < 0.08:
+            item["none_attr"] = True   # a value None (plain-dict attrs): written as the bare name
+        items.append(item)
     return items
 
 
@@ -449,6 +456,11 @@ def build_doc(recipe):
                 t["id"] = it["id"]
                 for an, v, _ in it["attrs"]:
                     t[an] = v
+                if it.get("cls"):
+                    t["class"] = list(it["cls"])
+                if it.get("none_attr"):
+                    t.attrs = dict(t.attrs)
+                    t.attrs["data-none"] = None
                 parent.append(t)
                 add(t, it["kids"])
     add(soup.body, recipe["items"])
@@ -475,6 +487,10 @@ def tree_tokens(tag):
                     out.extend([tok(k), "c", tok(v.original_value)])
                 elif isinstance(v, el.ContentMetaAttributeValue):
                     out.extend([tok(k), "m", tok(v.original_value)])
+                elif v is None:
+                    out.extend([tok(k), "n", "-"])
+                elif isinstance(v, (list, tuple)):
+                    out.extend([tok(k), "l", ";".join(tok(x) for x in v) if v else "_"])
                 else:
                     out.extend([tok(k), "p", tok(str(v))])
             out.append(str(len(n.contents)))
@@ -721,9 +737,14 @@ def stream_setup(ctx, batch):
         keys = list(attrs)
         r.shuffle(keys)
         markup = "<" + name + "".join(f' {k}="{attrs[k]}"' for k in keys) + ">"
-        soup = e["BeautifulSoup"](markup, "html.parser")
+        multi = r.random() < 0.25   # http-equiv as a multi-valued attribute: set_up_substitutions reads it through get_attribute_list
+        if multi and "http-equiv" in attrs and r.random() < 0.6:
+            attrs["http-equiv"] = r.choice(["refresh Content-Type", "CONTENT-TYPE x", "a b", "content-type"])
+            markup = "<" + name + "".join(f' {k}="{attrs[k]}"' for k in keys) + ">"
+        soup = e["BeautifulSoup"](markup, "html.parser", **({"multi_valued_attributes": {"*": ["http-equiv"]}} if multi else {}))
         tag = soup.find(name)
-        kinds = {k: ("c" if isinstance(v, el.CharsetMetaAttributeValue) else "m" if isinstance(v, el.ContentMetaAttributeValue) else "p")
+        kinds = {k: ("c" if isinstance(v, el.CharsetMetaAttributeValue) else "m" if isinstance(v, el.ContentMetaAttributeValue)
+                     else "l" if isinstance(v, list) else "p")
                  for k, v in tag.attrs.items()}
         # the property statement
         want = {k: "p" for k in attrs}
@@ -731,13 +752,20 @@ def stream_setup(ctx, batch):
             # each declaration style on its own: a tag may carry both, and then both must be rewritable
             if "charset" in attrs:
                 want["charset"] = "c"
-            if "content" in attrs and attrs.get("http-equiv", "").lower() == "content-type":
+            he = attrs.get("http-equiv")
+            he_items = [] if he is None else (he.split() if multi else [he])
+            if "content" in attrs and any(x.lower() == "content-type" for x in he_items):
                 want["content"] = "m"
             if want.get("charset") == "c" and want.get("content") == "m":
                 ctx.count("setup:both-styles-in-one-meta")
+        if multi and "http-equiv" in attrs:
+            want["http-equiv"] = "l"
+            ctx.count("setup:http-equiv-list")
         case = {"op": "setup", "markup": markup}
         real = " ".join(f"{tok(k)}:{kinds[k]}" for k in tag.attrs) or "-"
-        line = f"setup {tok(name)} {len(tag.attrs)} " + " ".join(f"{tok(k)} {tok(str(v))}" for k, v in tag.attrs.items())
+        line = f"setup {tok(name)} {len(tag.attrs)} " + " ".join(
+            (f"{tok(k)} l {';'.join(tok(x) for x in v) if v else '_'}" if isinstance(v, list) else f"{tok(k)} p {tok(str(v))}")
+            for k, v in tag.attrs.items())
         batch.ask("setup", line.strip(), real, case, want=" ".join(f"{tok(k)}:{want[k]}" for k in tag.attrs) or "-")
         if kinds != want:
             report(ctx, "set_up_substitutions installs the wrong placeholders", case=case, expected=want, observed=kinds, stream="setup")
@@ -851,6 +879,13 @@ def check_doc(ctx, batch, recipe, enc, entry, stream):
                     viol("attribute value not recovered from the encoded output", expected=ascii(v), observed=ascii(got), kf=kf)
                 elif bait:
                     ctx.count("doc:bait-survived:" + bait)
+            if it.get("cls"):
+                got = t2.get("class")
+                if any(not f.can(ch) for x in it["cls"] for ch in x):
+                    nontrivial = True
+                if got != it["cls"]:
+                    viol("multi-valued attribute (class) not recovered from the encoded output", expected=ascii(it["cls"]), observed=ascii(got))
+                ctx.count("doc:list-valued-attribute")
             texts = [x["text"] for x in it["kids"] if "text" in x]
             got = direct_text(t2, NS)
             if pretty:
@@ -980,7 +1015,21 @@ def check_doc_str(ctx, batch, recipe, e_enc, stream):
     ctx.count("doc-str:" + ("none" if e_enc is None else "python-specific" if e_enc in PROP_PYTHON_SPECIFIC else "named") + ":" + style)
     ctx.case(("doc-str", json.dumps(recipe, sort_keys=True), e_enc) if style != "none" else None)
     if batch is not None:
-        batch.ask("doc-render", f"render d {'N' if e_enc is None else tok(e_enc)} {tree_tokens(soup.html)}", tok(soup.html.decode(eventual_encoding=e_enc)), case)
+        tt = tree_tokens(soup.html)
+        batch.ask("doc-render", f"render d {'N' if e_enc is None else tok(e_enc)} {tt}", tok(soup.html.decode(eventual_encoding=e_enc)), case)
+        if e_enc is None:
+            # the str-returning entry points with their defaults (eventual_encoding = DEFAULT_OUTPUT_ENCODING, not None)
+            batch.ask("doc-str-defaults", f"render s N {tt}", tok(str(soup.html)), case | {"call": "str(tag)"})
+            batch.ask("doc-str-defaults", f"render ps N {tt}", tok(soup.html.prettify()), case | {"call": "tag.prettify()"})
+            batch.ask("doc-str-defaults", f"render cs N {tt}", tok(soup.html.decode_contents()), case | {"call": "tag.decode_contents()"})
+            if style != "none":
+                m3 = BS(str(soup), "html.parser").find("meta")
+                got = m3.get("charset") if style == "charset" else m3.get("content")
+                want = "utf-8" if style == "charset" else content_expected(info["parts"], "utf-8", False)
+                if got != want:
+                    found.append("str() default")
+                    report(ctx, "str(soup) (eventual_encoding defaults to utf-8) does not name utf-8 in the declaration", case=case,
+                           expected=want, observed=got, stream=stream)
     return found
 
 
